@@ -24,3 +24,287 @@ def run(ck: Checker):
     fifo.check_consumer_pairing(ck, 'C16-1c', m)
     fifo.check_spsc(ck, 'C16-1d', m)
     fifo.check_fifo_class(ck, 'C16-1d', m)
+    run_siblings(ck)
+
+
+# ======================================================================================
+# C16-2 sibling event language, C16-3 delegation maps
+import re
+
+from mpsa.cfg import CFG, Node, calls_in, header_expr, walk_shallow
+from mpsa.flow import enumerate_paths
+from mpsa.match import Scope, is_name, is_none, method_of, unwrap_await
+
+from .common import build_cfg
+from .fifo import consumer_fallible, consumer_loop, feeder_fallible, get_sites, input_loop, loop_var, put_sites
+
+
+# cancellation of the surrounding task exists only on the async side: erased before comparing
+ERASED = {'CancelledError'}
+
+
+def _ev_feeder(m, cfg: CFG, x: str):
+    futs = set()
+    pres = set()
+    for n in cfg.nodes:
+        a = header_expr(n)
+        if a is None:
+            continue
+        for c, item in put_sites(a, m.fscope, m.q):
+            if isinstance(item, ast.Tuple) and len(item.elts) >= 2 and isinstance(item.elts[1], ast.Name):
+                futs.add(item.elts[1].id)
+        if isinstance(n.ast, ast.Assign) and isinstance(unwrap_await(n.ast.value), ast.Call) and dotted(unwrap_await(n.ast.value).func) == m.pre_param and isinstance(n.ast.targets[0], ast.Name):
+            pres.add(n.ast.targets[0].id)
+
+    def role(e):
+        if isinstance(e, ast.Name):
+            if e.id == x:
+                return 'x'
+            if e.id in futs:
+                return 'F'
+            if e.id in pres:
+                return 'pre'
+            return e.id
+        return norm_text(e)
+
+    def ev(n: Node):
+        a = n.ast
+        if n.kind == 'test':
+            t = a
+            neg = ''
+            while isinstance(t, ast.UnaryOp) and isinstance(t.op, ast.Not):
+                neg = '!' if not neg else ''
+                t = t.operand
+            if isinstance(t, ast.Call) and method_of(t)[1] == 'is_set':
+                return f'{neg}STOP?'
+            if isinstance(t, ast.Compare) and dotted(t.left) == m.pre_param and is_none(t.comparators[0]):
+                return 'NO_PRE?' if isinstance(t.ops[0], ast.Is) else 'HAS_PRE?'
+            return f'TEST({norm_text(t)})'
+        if n.kind == 'except':
+            return f'CATCH({",".join(sorted(set(n.extra.get("caught") or ()) - ERASED))})'
+        if n.kind == 'for':
+            return 'NEXT'
+        if n.kind == 'stmt':
+            if isinstance(a, ast.Break):
+                return 'BREAK'
+            if isinstance(a, ast.Assign) and isinstance(a.targets[0], ast.Name):
+                v = unwrap_await(a.value)
+                tgt = role(a.targets[0])
+                if isinstance(v, ast.Call):
+                    d = dotted(v.func) or ''
+                    if d == m.func_param:
+                        return f'{tgt}=FUNC({role(v.args[0]) if v.args else ""})'
+                    if d == m.pre_param:
+                        return f'{tgt}=PRE({role(v.args[0]) if v.args else ""})'
+                    if d.split('.')[-1] in ('Future', 'create_future'):
+                        return f'{tgt}=NEW_FUTURE'
+                return f'{tgt}=…'
+            if isinstance(a, ast.Expr):
+                v = unwrap_await(a.value)
+                if isinstance(v, ast.Call):
+                    r, me = method_of(v)
+                    if me == 'set_exception':
+                        return f'FAIL({role(r)})'
+                    ps = put_sites(v, m.fscope, m.q)
+                    if ps:
+                        item = ps[0][1]
+                        if isinstance(item, ast.Tuple):
+                            return 'PUT(' + ','.join(role(e) for e in item.elts) + ')'
+                        if is_none(item):
+                            return 'PUT_END'
+                        return 'PUT_EXC'
+            return None
+        return None
+
+    return ev
+
+
+def _paths(cfg: CFG, start_edges, ev, stop=None):
+    out = set()
+    for e0 in start_edges:
+        for path in enumerate_paths(cfg, e0.dst, stop=stop, loop_unroll=0, max_paths=4000) or [[]]:
+            seq = []
+            nodes = [e0.dst] + [e.dst for e in path]
+            edges = [e0] + list(path)
+            # a path that exists only because of an erased (async-only) exception class is not compared
+            if any(e.is_exc and e.data is not None and not (set(e.data) - ERASED) for e in edges):
+                continue
+            for i, nid in enumerate(nodes):
+                t = ev(cfg.nodes[nid])
+                if t is not None:
+                    nxt = edges[i + 1] if i + 1 < len(edges) else None
+                    if nxt is not None and cfg.nodes[nid].kind == 'test':
+                        t += ':' + nxt.kind
+                    seq.append(t)
+                    if nxt is not None and nxt.kind == 'exc':
+                        seq.append('RAISES(' + ','.join(sorted(set(nxt.data or ()) - ERASED)) + ')')
+            if edges and (edges[-1].src, edges[-1].dst) in cfg.back_edges:
+                seq.append('→next')
+            elif nodes and nodes[-1] == cfg.exit_raise:
+                seq.append('→raise')
+            elif nodes and nodes[-1] == cfg.exit_return:
+                seq.append('→return')
+            out.add(tuple(seq))
+    return out
+
+
+def _ev_consumer(m, cfg: CFG, loop: Node):
+    zname = None
+    names = {}
+    for n in cfg.nodes:
+        if loop.id in n.loops and n.pending is None and isinstance(n.ast, ast.Assign):
+            v = unwrap_await(n.ast.value)
+            if isinstance(v, ast.Call) and get_sites(v, m.oscope, m.q) and isinstance(n.ast.targets[0], ast.Name):
+                zname = n.ast.targets[0].id
+    for n in cfg.nodes:
+        if loop.id in n.loops and n.pending is None and isinstance(n.ast, ast.Assign) and isinstance(n.ast.targets[0], ast.Tuple) and is_name(n.ast.value, zname):
+            el = n.ast.targets[0].elts
+            names = {el[0].id: 'x', el[1].id: 'F'}
+    ynames = set()
+
+    def role(e):
+        if isinstance(e, ast.Name):
+            if e.id == zname:
+                return 'z'
+            return names.get(e.id, e.id)
+        if isinstance(e, ast.Tuple):
+            return '(' + ','.join(role(x) for x in e.elts) + ')'
+        return norm_text(e)
+
+    def ev(n: Node):
+        a = n.ast
+        if n.kind == 'test':
+            if n.id == loop.id:
+                return None
+            t = a
+            if isinstance(t, ast.Compare) and is_name(t.left, zname) and is_none(t.comparators[0]):
+                return 'IS_END?'
+            if isinstance(t, ast.Call) and dotted(t.func) == 'isinstance' and is_name(t.args[0], zname):
+                return f'IS_EXC({norm_text(t.args[1])})?'
+            return f'FLAG({norm_text(t)})?'
+        if n.kind == 'except':
+            return f'CATCH({",".join(sorted(set(n.extra.get("caught") or ()) - ERASED))})'
+        if n.kind == 'finally':
+            return 'CLEANUP'
+        if n.kind == 'stmt':
+            if isinstance(a, ast.Break):
+                return 'BREAK'
+            if isinstance(a, ast.Raise):
+                return 'RAISE(' + (role(a.exc) if a.exc is not None else '') + ')'
+            if isinstance(a, ast.Assign):
+                v = a.value
+                tgt = role(a.targets[0])
+                if isinstance(v, ast.Await) and isinstance(v.value, ast.Name):
+                    return f'{tgt}=RESULT({role(v.value)})'
+                u = unwrap_await(v)
+                if isinstance(u, ast.Call):
+                    r, me = method_of(u)
+                    if me == 'result':
+                        return f'{tgt}=RESULT({role(r)})'
+                    if get_sites(u, m.oscope, m.q):
+                        return f'{tgt}=GET'
+                if isinstance(u, ast.Name):
+                    return f'{tgt}={role(u)}'
+                return f'{tgt}=…'
+            if isinstance(a, ast.Expr):
+                v = a.value
+                if isinstance(v, ast.Yield):
+                    return f'YIELD{role(v.value) if isinstance(v.value, ast.Tuple) else "(" + role(v.value) + ")"}'
+                u = unwrap_await(v)
+                if isinstance(u, ast.Call):
+                    r, me = method_of(u)
+                    if me == 'set' and r is not None:
+                        return 'SET_STOP'
+                    if me == 'cancel':
+                        return 'CANCEL'
+                    if me == 'join':
+                        return 'JOIN_FEEDER'
+        return None
+
+    return ev
+
+
+def _canon_capacity(e, cls):
+    d = dotted(e)
+    if d and d.startswith('self.') and cls.has_method(d.split('.', 1)[1]) and any(dotted(x) == 'property' for x in cls.method(d.split('.', 1)[1]).node.decorator_list):
+        f = cls.method(d.split('.', 1)[1])
+        for n in ast.walk(f.node):
+            if isinstance(n, ast.Return) and dotted(n.value):
+                return dotted(n.value)
+    return d or norm_text(e)
+
+
+def run_siblings(ck: Checker):
+    ck.rule('C16-2', 'sibling language: per feeder iteration, per feeder exit and per consumer iteration the async implementation performs the same abstract event sequences as the sync one (after erasing async/await and the Future class) (SIBLING)', minimum=3)
+    ck.rule('C16-3', 'delegation maps: Server.stream / AsyncServer.stream and the four parmapper classes hand the same flags to fifo_stream / async_fifo_stream (AGREE)', minimum=6)
+    ms = fifo.discover(ck.repo, ck.repo.func(STREAMER, 'fifo_stream'))
+    ma = fifo.discover(ck.repo, ck.repo.func(STREAMER, 'async_fifo_stream'))
+    lang = {}
+    for tag, m in (('sync', ms), ('async', ma)):
+        cfg = build_cfg(m.feeder, ck.repo, feeder_fallible(m))
+        loop = input_loop(m, cfg)
+        x = loop_var(loop)
+        ev = _ev_feeder(m, cfg, x)
+        it = _paths(cfg, [e for e in cfg.succ[loop.id] if e.kind == 'iter'], ev, stop=lambda nid, cfg=cfg, loop=loop: nid == loop.id)
+        # normalise: a path ends when the loop head is reached again (next element) or at a function exit
+        ex = _paths(cfg, [e for e in cfg.succ[loop.id] if e.kind in ('exhaust', 'exc')], ev)
+        ocfg = build_cfg(m.outer, ck.repo, consumer_fallible(m, {'fut', 't'}))
+        cl = consumer_loop(m, ocfg)
+        cev = _ev_consumer(m, ocfg, cl)
+        # one consumer iteration: from loop entry to the next loop head / leaving the main try
+        ci = _paths(ocfg, [e for e in ocfg.succ[cl.id] if e.kind == 'T'], cev, stop=lambda nid, ocfg=ocfg, cl=cl: nid == cl.id or ocfg.nodes[nid].kind == 'finally')
+        lang[tag] = {'feeder iteration': it, 'feeder exits': ex, 'consumer iteration': ci}
+    for region in ('feeder iteration', 'feeder exits', 'consumer iteration'):
+        a, b = lang['sync'][region], lang['async'][region]
+        only_s, only_a = sorted(a - b), sorted(b - a)
+        ok = not only_s and not only_a and len(a) >= 2
+        detail = f'{len(a)} event sequences, identical in both implementations' if ok else 'the async implementation differs from its sync sibling: ' + '; '.join((['sync only: ' + ' · '.join(only_s[0])] if only_s else []) + (['async only: ' + ' · '.join(only_a[0])] if only_a else []))
+        ck.ob('C16-2', ma.feeder if 'feeder' in region else ma.outer, (ma.outer.node.lineno, region), ok, detail)
+        ck.paths_examined += len(a) + len(b)
+    # cleanup: both set the stop flag on abnormal exit, cancel what is still queued, and wait for the feeder
+    # (the async one additionally awaits the cancelled tasks: tabled difference)
+    # -- decided by C05-3/-4/-5 on both functions; here only the delegation maps remain.
+    smod = ck.repo.module(SERVER)
+    maps = {}
+    for cname, callee in (('Server', 'fifo_stream'), ('AsyncServer', 'async_fifo_stream')):
+        cls = smod.cls(cname)
+        f = cls.method('stream')
+        calls = [n for n in ast.walk(f.node) if isinstance(n, ast.Call) and dotted(n.func) == callee]
+        ck.need(calls, f'{f.key}: no call of {callee}')
+        c = calls[0]
+        mp = {k.arg: _canon_capacity(k.value, cls) for k in c.keywords if k.arg and k.arg != 'name'}
+        mp['<positional>'] = [_canon_capacity(a, cls) for a in c.args]
+        maps[cname] = (f, c, mp)
+    a, b = maps['Server'][2], maps['AsyncServer'][2]
+    diff = sorted(k for k in set(a) | set(b) if a.get(k) != b.get(k))
+    want = {'return_x': 'return_x', 'return_exceptions': 'return_exceptions', 'timeout': 'timeout', 'preprocessor': 'preprocessor', 'backpressure': 'False', 'capacity': 'self._capacity', '<positional>': ['data_stream', 'self._enqueue']}
+    for cname in ('Server', 'AsyncServer'):
+        f, c, mp = maps[cname]
+        wrong = sorted(k for k in want if mp.get(k) != want[k])
+        ck.ob('C16-3', f, c, not wrong and not diff, f'stream delegates with {dict((k, v) for k, v in mp.items() if k != "<positional>")}' if not wrong and not diff else f'the two servers delegate differently / not as documented: {[(k, a.get(k), b.get(k)) for k in diff] or [(k, mp.get(k), want[k]) for k in wrong]}')
+    for rel, cname, itn, callee in ((STREAMER, 'Parmapper', '__iter__', 'fifo_stream'), (STREAMER, 'ParmapperAsync', '__iter__', 'fifo_stream'), (STREAMER_ASYNC, 'AsyncParmapper', '__aiter__', 'async_fifo_stream'), (STREAMER_ASYNC, 'AsyncParmapperAsync', '__aiter__', 'async_fifo_stream')):
+        cls = ck.repo.cls(rel, cname)
+        f = cls.method(itn)
+        calls = [n for n in ast.walk(f.node) if isinstance(n, ast.Call) and dotted(n.func) == callee]
+        ck.need(calls, f'{f.key}: no call of {callee}')
+        c = calls[0]
+        mp = {k.arg: dotted(k.value) for k in c.keywords if k.arg}
+        init = cls.method('__init__')
+        stored = {dotted(n.targets[0]): dotted(n.value) for n in ast.walk(init.node) if isinstance(n, ast.Assign) and len(n.targets) == 1 and dotted(n.targets[0]) and dotted(n.value)}
+        probs = []
+        for flag in ('return_x', 'return_exceptions', 'preprocessor'):
+            if mp.get(flag) != f'self._{flag}':
+                probs.append(f'{flag} is passed as `{mp.get(flag)}`')
+            if stored.get(f'self._{flag}') != flag:
+                probs.append(f'__init__ stores `{stored.get(f"self._{flag}")}` as self._{flag}')
+        if not (c.args and dotted(c.args[0]) == 'self._instream'):
+            probs.append('the input stream is not the first argument')
+        ck.ob('C16-3', f, c, not probs, '; '.join(probs) if probs else 'forwards return_x / return_exceptions / preprocessor exactly as given to the constructor')
+    for rel, cname in ((STREAMER, 'Stream'), (STREAMER_ASYNC, 'AsyncStream')):
+        cls = ck.repo.cls(rel, cname)
+        f = cls.method('parmap')
+        calls = [n for n in ast.walk(f.node) if isinstance(n, ast.Call) and is_name(n.func, 'cls')]
+        ck.need(calls, f'{f.key}: streamlet construction not found')
+        mp = {k.arg: dotted(k.value) for k in calls[0].keywords if k.arg}
+        ok = all(mp.get(k) == k for k in ('concurrency', 'return_x', 'return_exceptions')) and any(k.arg is None for k in calls[0].keywords)
+        ck.ob('C16-3', f, calls[0], ok, 'parmap passes concurrency / return_x / return_exceptions / **kwargs through unchanged' if ok else f'parmap passes {mp}')
